@@ -13,8 +13,8 @@ LEVEL = "model_checking"
 PAT_ALPHA = ["a", "b", "*", "?", "[", "]", "!", "^", "-", "\\", ".", "NL"]
 SUBJ_ALPHA = ["a", "b", "-", "]", "[", ".", "NL"]
 # second family: regular-expression metacharacters and multi-byte characters
-PAT_ALPHA2 = ["a", "*", "?", "\\", "+", "(", ")", "|", "{", "}", "$", "^", ".", "U1", "U2"]
-SUBJ_ALPHA2 = ["a", "+", "(", ")", "|", "{", "}", "$", "^", ".", "\\", "U1", "U2", "NL"]
+PAT_ALPHA2 = ["a", "*", "?", "\\", "+", "(", ")", "|", "{", "}", "$", "^", ".", "U1", "U2", "UFFFD"]
+SUBJ_ALPHA2 = ["a", "+", "(", ")", "|", "{", "}", "$", "^", ".", "\\", "U1", "U2", "UFFFD", "NL"]
 
 
 # third family: deep bracket expressions
